@@ -91,8 +91,9 @@ package corebgp
 //@   let requesterWins = localDominant == (i == 0)
 //@   ghostvar killed bool = false
 //@   ghostvar gotOther bool = false
-//@   at call handleStateTransition#0 assert [pending_transition_of_the_other_fsm_is_handled_for_it] arg1 == 1 - i
-//@   at call handleStateTransition#1 assert [pending_transition_of_the_other_fsm_is_handled_for_it] arg1 == 1 - i
+//@   ghostvar handedOn bool = false
+//@   at call handleStateTransition assert [pending_transition_of_the_other_fsm_is_handled_for_it] arg1 == 1 - i && gotOther
+//@   at call handleStateTransition set handedOn = true
 //@   ghostvar closing bool = false
 //@   at select#0 case 0 set closing = true
 //@   at select#0 case 1 set killed = true
@@ -107,6 +108,7 @@ package corebgp
 //@   ensures [collision_loser_requester_closed] collision && !requesterWins ==> p.fsms[i] == nil && !fsmRunning(old(p.fsms[i])) && p.fsms[1-i] == old(p.fsms[1-i]) && p.fsmState[1-i] == 5 && fsmRunning(p.fsms[1-i]) && !chanClosed(p.fsms[1-i].closeCh)
 //@   ensures [collision_winner_requester_kills_other] collision && requesterWins && killed ==> p.fsms[1-i] == nil && !fsmRunning(old(p.fsms[1-i])) && p.fsms[i] == old(p.fsms[i]) && fsmRunning(p.fsms[i]) && !chanClosed(p.fsms[i].closeCh)
 //@   ensures [collision_winner_never_refused_by_manager] collision && requesterWins ==> gotOther || killed || closing
+//@   ensures [pending_transition_of_the_other_fsm_is_never_dropped] gotOther ==> handedOn
 //@   ensures [collision_closing] collision && requesterWins && closing ==> p.fsms[0] == old(p.fsms[0]) && p.fsms[1] == old(p.fsms[1]) && p.fsmState[0] == old(p.fsmState[0]) && p.fsmState[1] == old(p.fsmState[1])
 
 // ---- the manager loop ----
